@@ -103,6 +103,15 @@ def main():
             if prev & s:
                 shared.append(sorted(prev & s))
         sets.append(s)
+    # ... and neither do repeated expansions of one registered intermediate
+    for nm, t1, t2 in (("t2_2", "ijab", "klcd"), ("t1_2", "ia", "ld"), ("p0_2_oo", "ij", "lm"),
+                       ("t2eri_4", "ijab", "lmde"), ("t3_2", "ijkabc", "mnoefg")):
+        it = A["itmd"].available[nm]
+        s1 = {(x.name, x.space, x.spin) for x in sympify(it.expand_itmd(indices=t1).sympy).atoms(Index)}
+        s2 = {(x.name, x.space, x.spin) for x in sympify(it.expand_itmd(indices=t2).sympy).atoms(Index)}
+        tg = {(x.name, x.space, x.spin) for x in get_symbols(t1 + t2)}
+        if (s1 & s2) - tg:
+            shared.append([nm] + sorted((s1 & s2) - tg))
     # identical requests return identical objects
     ident = all(get_symbols(n)[0] is get_symbols(n)[0] for n in ["i", "a3", "p", "k12"])
     out = {"ir": IR.expr_ir(e.sympy), "text": text, "target": [IR.idx_ir(s) for s in T],
